@@ -15,6 +15,39 @@ TEXT = {
  "C03": ("sanitizers (ASan + UBSan bounds) on generated code with exactly sized buffers + CSR/cross-layout monitor",
          "All four renderings of one Network are executed under AddressSanitizer/UBSan against shim buffers of exactly the declared sizes; CSR arrays as filled by the generated code are validated and compared bit for bit with dense/ublas assignments; jac_pattern.dat is compared with the stored entries.",
          "red-zone sanitizers miss far out-of-bounds accesses (>1 KiB past a heap buffer); bit-exactness relies on -O0 -ffp-contract=off"),
+ "C05": ("runtime monitoring: compiled EvalRates vs independent implementation of the published rate laws, UBSan on",
+         "Files of every gas-phase (format, type) with signed/zero/integer/extreme coefficients are read, rendered, and the emitted EvalRates is compiled and executed at several parameter points; every k is compared with laws re-implemented from the database papers (IEEE semantics). A rates unit that does not compile is the violation 'not valid C'.",
+         "laws as printed in Wakelam+2012, McElroy+2013, Walsh+2015, Holdship+2017; shielded rates use the factor returned by the same compiled helper"),
+ "C06": ("runtime monitoring with assignment sentinels: compiled EvalRates/Fex/Jac at ulp-resolved window boundaries",
+         "The emitted EvalRates is executed one ulp below / at / above every declared bound on zero-initialised and NaN-prefilled rate arrays (assignment events), and Fex/Jac are swept up and down through the windows in one process with the rate vector logged at the seam (stale arrays).",
+         "rates are alpha-only so that 'active' is observable as k == alpha; bound <= 0 means unbounded"),
+ "C09": ("runtime monitoring: compiled index macros, executed Python constants, parsed summary and Enzo tables cross-checked",
+         "Networks with the hard naming conventions are rendered through API, CLI and the Enzo patch; macros are compiled and printed by name, the Python constants modules are executed, the [summary] table and A_Table are parsed; bijectivity, identifier legality and agreement of names/order/counts are checked, and the patch must leave the network's aliases untouched.",
+         "identifier legality = C identifier and not a Python keyword; orders are compared for mutual agreement, not recomputed"),
+ "C10": ("compiler and linker diagnostics as events over a configuration grid, plus one executed call per entry point under sanitizers",
+         "A grid of (formats, dust model, back-end, shielding, thermal, network variants) is rendered; every emitted unit is compiled by clang-14 with sanitizers and by g++ -fsyntax-only against API shims, linked with the driver, and EvalRates/Fex/Jac/Renorm are called once. Weakest fit of the family: the deciding observation is a compiler's.",
+         "shim headers stand in for SUNDIALS/Boost; refusals (exceptions at generation) are counted, not judged"),
+ "C11": ("runtime monitoring: compiled grain rates vs independent HH93/RR07 formulae",
+         "Leeds/UCLCHEM grain reactions are rendered under each dust model and the compiled EvalRates is compared, for randomised grain parameters and mantle abundances incl. zero, with formulae re-implemented from the model papers that take constants, eb_<alias> and mantle density from the compiled library; unsupported requests must raise; a binding-energy override after a first rendering must show in the next one.",
+         "model formulae from Hasegawa&Herbst 1993 / Walsh+2015 and Roberts+2007 / UCLCHEM v1.3"),
+ "C12": ("differential execution: compiled C translation vs gfortran-compiled original expression",
+         "Expressions generated from the converter's own Fortran grammar, probes for known weak spots, out-of-grammar forms and the bundled KROME networks are translated by the real naunet, compiled and executed; reference values come from gfortran with double-precision defaults; a conditioning estimate (perturbed twin valuations) keeps ill-conditioned expressions from raising alarms; known defects are recognised by re-evaluating the alternative reading in Fortran.",
+         "gfortran -fdefault-real-8 is the Fortran semantics; tolerance 1e-9 x max(|value|, sum|terms|)"),
+ "C13": ("differential execution: compiled project with vs without modifiers, API and CLI entry",
+         "The same network is rendered with and without rate/ODE modifiers (API or `naunet init --render`), both are compiled and executed on the same abundances; rate-vector and derivative differences are compared with the abstract modifier set; the TOML written by init is compared with the request.",
+         "modifier expressions are evaluated in Python with the NaunetData values the harness sets"),
+ "C16": ("runtime monitoring: compiled renormalisation (shim LU) vs reference ratios, UBSan float-divide-by-zero",
+         "InitRenorm/RenormAbundance/SetReferenceAbund/Renorm of rendered cvode and odeint projects are executed on random positive vectors (two consecutive calls per stored reference); ratios are read back through the compiled GetElementAbund/GetHNuclei; the tolerance is the numerical noise floor of the prescribed algorithm obtained from an exact rational solve.",
+         "dense LU of the shims stands in for SUNLinSol_Dense / ublas lu_factorize"),
+ "C17": ("runtime monitoring across interpreter processes: digest comparison under hash seeds, repetition and interleaved foreign operations",
+         "Each description is rendered in fresh child interpreters under four PYTHONHASHSEED values, twice in one process, and in schedules containing exactly one foreign operation (other element lists, prefixes, replacement table, binding energies, KROME directives, another rendering) before build, between build and render, or between renderings; sha256 per file against the fresh reference.",
+         "only naunet version, project name and project date are masked"),
+ "C18": ("runtime monitoring: write/read/write cycles + differential execution of exported-and-re-rendered vs direct project",
+         "Networks from every format or the API are written, read back and compared field by field, written again (byte identity); the exported project is re-rendered with `naunet render`, compiled, and its EvalRates compared with the direct rendering at the printed precision; known law changes are recognised by re-evaluating the native law of the written type code.",
+         "printed precision 10.3e / 9.2f; laws from C05's reference"),
+ "C20": ("runtime monitoring across interpreter processes: TOML vs request, CLI-rendered vs API-rendered source digests",
+         "Generated option strings go through the real `naunet init --render` in a fresh interpreter; the written configuration is compared key by key with the request and the rendered sources are compared (sha256 per file) with the equivalent Network(...).to_code() in another fresh interpreter; bundled examples through `naunet example`.",
+         "API equivalent follows the steps of `naunet render`; name/version/date masked"),
  "C07": ("runtime monitoring: parser outputs vs abstract reactions encoded by independent encoders",
          "Files in all six formats are generated from abstract reactions by encoders written from the format descriptions and read by the real Network; every parsed field of every reaction and the number/order of reactions are compared with the abstract case, with blank/whitespace/comment/directive lines, CRLF and missing final newline interleaved.",
          "encoders and code->type tables follow the published format descriptions"),
